@@ -302,6 +302,23 @@ func genExt2(o *Out, rng *rand.Rand, tier string) {
 		o.Emit(rec, "v6-all-accessors", append([]byte("acc"), m.ToBytes()...), len(m.Options.Options) > 1)
 		walk(m.Options.Options)
 
+		// ---- DUID equality: equal copies, one field changed, another kind
+		{
+			a := rduid(rng)
+			b, _ := dhcpv6.DUIDFromBytes(a.ToBytes())
+			if b == nil || rng.Intn(3) == 0 {
+				b = rduid(rng)
+			} else if rng.Intn(2) == 0 {
+				w := a.ToBytes()
+				w[rng.Intn(len(w))] ^= byte(1 << uint(rng.Intn(8)))
+				if x, err := dhcpv6.DUIDFromBytes(w); err == nil {
+					b = x
+				}
+			}
+			rec := map[string]any{"op": "DuidEq", "a": projDUID(a), "b": projDUID(b)}
+			guardRec(rec, func() { rec["res"] = a.Equal(b); rec["sym"] = b.Equal(a) })
+			o.Emit(rec, "duid-equal", append(append([]byte("deq"), a.ToBytes()...), b.ToBytes()...), true)
+		}
 		// ---- relay accessors
 		var d dhcpv6.DHCPv6 = m
 		r, _ := dhcpv6.EncapsulateRelay(d, dhcpv6.MessageTypeRelayForward, rip6(rng), rip6(rng))
